@@ -579,7 +579,7 @@ func c17Apply(ctx *sql.Context, ns NodeStore, sIdx IndexedJsonDocument, cur inte
 			return cur, sIdx, false, mm("text", "stored result is JSON-equal but not the normalized text\n stored %s\n want   %s", verifJShort(b), verifJShort(want))
 		}
 		if bad := verifJCheckIndex(ctx, ns, idx.m.Root, true); bad != "" {
-			if !c17Excluded(c17FStaleKeys) {
+			if c17Raw || !c17Excluded(c17FStaleKeys) {
 				return cur, sIdx, false, mm("index", "the stored result has the right text but its chunk index does not describe it (later lookups and edits of this document seek by these keys): %s", bad)
 			}
 			// known finding: carry on with a freshly stored copy of the same value
@@ -863,6 +863,7 @@ func TestVerif_C17(t *testing.T) {
 		"lookups go through types.LookupJSONValue like every SQL function (Lookup(\"$\") is never called directly)",
 		"where go-mysql-server's in-memory implementation is itself not usable as a reference only error presence is compared: paths that continue after a location that does not exist (it ignores the remaining legs), [0]/[last] on a non-array followed by further legs (it drops them), Lookup with \\\" in a member name (its jsonpath library cannot parse it; there the expected value is taken from the document when every leg exists), and paths on which it panics")
 	defer rec.Write(t)
+	t.Run("pinned", c17RunPins)
 	vh.Check(t, "docs", 1500, 6000, func(rt *rapid.T) {
 		if m, _ := c17Case(rt, rec); m != nil {
 			rt.Fatalf("%s", m.msg)
